@@ -1,5 +1,5 @@
 #!/venv/bin/python
-"""tools/seed_ingest.py PROP... -- confirm the seeded changes delivered in /tmp/seed/out/PROP/change_N (scratch worktree: demo exits 1 with the patch,
+"""tools/seed_ingest.py [--round N --src DIR] PROP... -- confirm the seeded changes delivered in /tmp/seed/out/PROP/change_N (scratch worktree: demo exits 1 with the patch,
 0 without, pinned suite passes) and keep the confirmed ones as /verif/seeded/PROP-N/{patch.diff, demo.py, meta.json}."""
 import json, os, shutil, sys
 sys.path.insert(0, os.path.dirname(os.path.abspath(__file__)))
@@ -15,16 +15,27 @@ def one(job):
     return prop, n, src, res
 
 
+args = sys.argv[1:]
+ROUND, SRC = 1, "/tmp/seed/out"
+while args and args[0].startswith("--"):
+    if args[0] == "--round":
+        ROUND = int(args[1]); args = args[2:]
+    elif args[0] == "--src":
+        SRC = args[1]; args = args[2:]
+OFFSET = 3 * (ROUND - 1)
 jobs = []
-for prop in sys.argv[1:]:
-    base = f"/tmp/seed/out/{prop}"
+for prop in args:
+    base = f"{SRC}/{prop}"
+    if not os.path.isdir(base):
+        continue
     for name in sorted(os.listdir(base)):
         src = os.path.join(base, name)
         if name.startswith("change_") and all(os.path.isfile(os.path.join(src, f)) for f in ("patch.diff", "demo.py", "meta.json")):
-            dst = os.path.join(VERIF, "seeded", f"{prop}-{name.split('_')[1]}")
+            num = str(int(name.split('_')[1]) + OFFSET)
+            dst = os.path.join(VERIF, "seeded", f"{prop}-{num}")
             if os.path.exists(os.path.join(dst, "meta.json")):
                 continue
-            jobs.append((prop, name.split("_")[1], src))
+            jobs.append((prop, num, src))
 with ThreadPoolExecutor(7) as ex:
     for prop, n, src, res in ex.map(one, jobs):
         print(prop, n, "confirmed" if res["confirmed"] else "REJECTED", {k: res.get(k) for k in ("demo_exit_original", "demo_exit_changed", "tests", "applies")})
@@ -35,6 +46,7 @@ with ThreadPoolExecutor(7) as ex:
         shutil.copy(os.path.join(src, "patch.diff"), dst)
         shutil.copy(os.path.join(src, "demo.py"), dst)
         meta = json.load(open(os.path.join(src, "meta.json")))
+        meta["round"] = ROUND
         meta["confirmation"] = {"by": "tools/seed_eval.py confirm (scratch worktree of /repo HEAD)", "demo_exit_original": res["demo_exit_original"],
                                 "demo_exit_changed": res["demo_exit_changed"], "tests_changed_tree": res["tests"]}
         json.dump(meta, open(os.path.join(dst, "meta.json"), "w"), indent=1)
